@@ -1,5 +1,7 @@
 package sim
 
+import "fmt"
+
 // AVSGenOpts steers the AVS workload generator.
 type AVSGenOpts struct {
 	MinBlocks, MaxBlocks int
@@ -26,7 +28,7 @@ func avsOp(p *PRNG, cfg Config, early bool) Op {
 		if p.Chance(1, 10) {
 			op.D = 3 + p.Intn(3)
 		}
-		op.E = p.Intn(5)
+		op.E = p.Intn(7)
 		if p.Chance(1, 2) {
 			op.E = 0
 		}
@@ -47,7 +49,7 @@ func avsOp(p *PRNG, cfg Config, early bool) Op {
 		}
 		return op
 	case 1: // update
-		op := Op{K: "avsupd", A: p.Intn(nAVS), C: p.Intn(nAVS), D: p.Intn(6), E: p.Intn(5), B: p.Intn(8)}
+		op := Op{K: "avsupd", A: p.Intn(nAVS), C: p.Intn(nAVS), D: p.Intn(6), E: p.Intn(7), B: p.Intn(8)}
 		if p.Chance(1, 2) {
 			op.C = op.A
 			op.D = 5 // keep the epoch identifier
@@ -75,6 +77,9 @@ func avsOp(p *PRNG, cfg Config, early bool) Op {
 		}
 		if p.Chance(1, 6) {
 			op.E = 1 + p.Intn(4)
+		}
+		if p.Chance(1, 5) {
+			op.M, op.A = 1, p.Intn(3) // sent by somebody else in the operator's name
 		}
 		return op
 	case 4:
@@ -118,7 +123,7 @@ func avsOp(p *PRNG, cfg Config, early bool) Op {
 			op.N = int64(1 + p.Intn(2)) // task that does not exist yet
 		}
 		if p.Chance(1, 5) {
-			op.E = 1 + p.Intn(8)
+			op.E = 1 + p.Intn(10)
 		}
 		if p.Chance(1, 12) {
 			op.C = 1
@@ -286,19 +291,25 @@ func (g *avsGen) note(op Op, elapsed int64) Op {
 				g.bls[op.C] = op.D%2 == 0
 			}
 		}
-	case "avsopt":
-		if _, ok := g.regd[a]; ok && op.C < g.cfg.NOps {
-			if op.M == 0 {
-				if g.opted[a] == nil {
-					g.opted[a] = map[int]int64{}
+	case "optin", "optout":
+		var n int
+		if _, err := fmt.Sscanf(op.S, "avs:%d", &n); err == nil && n >= 0 && n < 3 {
+			if _, ok := g.regd[n]; ok && op.A >= 0 && op.A < g.cfg.NOps {
+				if op.K == "optin" {
+					if g.opted[n] == nil {
+						g.opted[n] = map[int]int64{}
+					}
+					if _, ok := g.opted[n][op.A]; !ok {
+						g.opted[n][op.A] = g.epochOf(n, elapsed)
+					}
+				} else if g.opted[n] != nil {
+					delete(g.opted[n], op.A)
 				}
-				if _, ok := g.opted[a][op.C]; !ok {
-					g.opted[a][op.C] = g.epochOf(a, elapsed)
-				}
-			} else if g.opted[a] != nil {
-				delete(g.opted[a], op.C)
 			}
 		}
+	case "avsopt":
+		// the AVS accounts of this workload are not the operators they name, so the precompile refuses
+		// these calls (the operator must be the signer): the guide's picture does not change
 	case "avstask":
 		if _, ok := g.regd[a]; ok && op.M == 0 && op.S != "-" && len(g.opted[a]) > 0 {
 			g.ntasks[a]++
@@ -314,7 +325,7 @@ func (g *avsGen) next(p *PRNG, elapsed int64) Op {
 	if len(g.regd) == 0 || (len(g.regd) < 3 && p.Chance(1, 6)) {
 		for a := 0; a < 3; a++ {
 			if _, ok := g.regd[a]; !ok {
-				op := Op{K: "avsreg", A: a, C: a, D: p.Intn(3), E: []int{0, 0, 0, 2, 3}[p.Intn(5)]}
+				op := Op{K: "avsreg", A: a, C: a, D: p.Intn(3), E: []int{0, 0, 0, 0, 0, 0, 0, 2, 3, 0, 5, 6}[p.Intn(12)]}
 				if p.Chance(1, 4) {
 					op.B = 1 + p.Intn(7)
 				}
@@ -339,7 +350,7 @@ func (g *avsGen) next(p *PRNG, elapsed int64) Op {
 	a := avss[p.Intn(len(avss))]
 	if len(g.opted[a]) == 0 || (len(g.opted[a]) < cfg.NOps && p.Chance(1, 5)) {
 		o := p.Intn(cfg.NOps)
-		if p.Chance(1, 3) {
+		if !p.Chance(1, 6) {
 			return g.note(Op{K: "optin", A: o, S: []string{"avs:0", "avs:1", "avs:2"}[a]}, elapsed)
 		}
 		return g.note(Op{K: "avsopt", A: a, C: o}, elapsed)
@@ -398,7 +409,7 @@ func (g *avsGen) next(p *PRNG, elapsed int64) Op {
 		return op
 	}
 	if p.Chance(1, 10) {
-		op.E = 1 + p.Intn(8)
+		op.E = 1 + p.Intn(10)
 	}
 	return op
 }
